@@ -163,7 +163,10 @@ V2_LONG = TokenInfo("WETH", 18)
 V2_SHORT = TokenInfo("USDC", 6)
 
 
-def v2_row(kind="balanced", impact="small", long_price=2600.0, short_price=1.0):
+V2_INDEX_SYNTH = TokenInfo("DOGE", 8)  # synthetic markets (DOGE/USD [WETH-USDC]): the index token is neither pool token, indexPrice != longPrice
+
+
+def v2_row(kind="balanced", impact="small", long_price=2600.0, short_price=1.0, index_price=None):
     long_usd = 50_000_000.0
     short_usd = {"balanced": 50_000_000.0, "mild": 46_000_000.0, "strong": 20_000_000.0, "strong_short": 90_000_000.0}[kind]
     pool_value = (long_usd + short_usd) * 0.97  # pnl / fees make pool value differ from the token sum
@@ -172,21 +175,22 @@ def v2_row(kind="balanced", impact="small", long_price=2600.0, short_price=1.0):
         "virtualSwapInventoryLong": long_usd / long_price * 1.3, "virtualSwapInventoryShort": short_usd / short_price * 0.9,
         "poolValue": pool_value, "marketTokensSupply": pool_value / 1.37,
         "impactPoolAmount": {"0": 0.0, "small": 0.002, "large": 500.0}[impact],
-        "longPrice": long_price, "shortPrice": short_price, "indexPrice": long_price,
+        "longPrice": long_price, "shortPrice": short_price, "indexPrice": long_price if index_price is None else index_price,
     }
 
 
-def v2_frame(n=3, kind="balanced", impact="small", single_token=False):
-    rows = [v2_row(kind, impact, 2600.0 + 5 * i, short_price=(2600.0 + 5 * i) if single_token else 1.0) for i in range(n)]
+def v2_frame(n=3, kind="balanced", impact="small", single_token=False, synthetic=False):
+    rows = [v2_row(kind, impact, 2600.0 + 5 * i, short_price=(2600.0 + 5 * i) if single_token else 1.0,
+                   index_price=(0.0815 + 0.0007 * i) if synthetic else None) for i in range(n)]
     return pd.DataFrame(rows, index=minutes(n))
 
 
-def make_v2(df, name="gmx2", single_token=False):
+def make_v2(df, name="gmx2", single_token=False, synthetic=False):
     from demeter.gmx import GmxV2Market
     from demeter.gmx._typing2 import GmxV2Pool
 
     short = V2_LONG if single_token else V2_SHORT  # single-token pools (long = short = index token) exist in GMX v2
-    return GmxV2Market(MarketInfo(name, MarketTypeEnum.gmx_v2), GmxV2Pool(V2_LONG, short, V2_LONG), data=df)
+    return GmxV2Market(MarketInfo(name, MarketTypeEnum.gmx_v2), GmxV2Pool(V2_LONG, short, V2_INDEX_SYNTH if synthetic else V2_LONG), data=df)
 
 
 def v2_prices(df, market):
